@@ -33,6 +33,9 @@ func (e *Engine) stub9(fn *ssa.Function, args []any) (any, bool) {
 		if sym, ok := e.resolve(strE(args[0]), keysOf(b58Of)); ok {
 			return Tuple{BytesV{E: b58Of[sym]}, IfaceV{}}, true
 		}
+		if e.isGarbage(strE(args[0])) {
+			return Tuple{BytesV{E: `""`, Nil: true}, e.mkErr("invalid base58")}, true
+		}
 		ok := SymBool{e.freshSym("Bool", "b58ok")}
 		if e.branch(ok) {
 			return Tuple{BytesV{E: e.freshSym("String", "b58dec")}, IfaceV{}}, true
@@ -47,7 +50,17 @@ func (e *Engine) hmacMethod(h *HmacV, name string, args []any) any {
 	switch name {
 	case "Sum":
 		mac := "(mac " + h.key + ")"
-		e.S.Send("(assert (= (str.len " + mac + ") 32))")
+		known := false
+		for _, k := range e.macKeys {
+			known = known || k == h.key
+		}
+		if !known { // collision resistance: distinct keys, distinct MACs (ground instances over the keys of the run)
+			e.S.Send("(assert (= (str.len " + mac + ") 32))")
+			for _, k := range e.macKeys {
+				e.S.Send(fmt.Sprintf("(assert (=> (= %s (mac %s)) (= %s %s)))", mac, k, h.key, k))
+			}
+			e.macKeys = append(e.macKeys, h.key)
+		}
 		return BytesV{E: "(str.++ " + bytesE(args[0]) + " " + mac + ")"}
 	}
 	panic("hmac method " + name)
